@@ -37,6 +37,7 @@ sub!(c17, "c17.rs");
 sub!(c06, "c06.rs");
 sub!(relay, "relay.rs");
 sub!(c16, "c16.rs");
+sub!(c13, "c13.rs");
 
 pub async fn main() -> Result<(), easy_error::Terminator> {
     let args: Vec<String> = std::env::args().collect();
@@ -62,6 +63,7 @@ pub async fn main() -> Result<(), easy_error::Terminator> {
         "c01" => relay::run_c01(&mut out).await,
         "c04" => relay::run_c04(&mut out).await,
         "c16" => c16::run(&mut out).await,
+        "c13" => c13::run(&mut out).await,
         _ => {
             eprintln!("unknown mode {}", mode);
             std::process::exit(2);
